@@ -1906,6 +1906,83 @@ def cells_check(ctx, res):
                         ctx.batch.add(req, cb)
 
 
+DTYPES_NUM = ['float16', 'float32', 'float64', 'int8', 'int16', 'int32', 'int64', 'uint8', 'uint16', 'uint32', 'uint64']
+DTYPES_NAN = ['float16', 'float32', 'float64', 'object']      # the dtypes that can hold a NaN
+
+
+def dtype_check(ctx, res):
+    """the DTYPE of a data column as an input dimension of the data audit: the verdict depends on the values, not on how
+    they are stored.  NaN / a string / no row in a column of each dtype that can hold the fault, at construction and
+    entered in place afterwards (BIOGEME(...) audits again); valid columns of every number dtype are accepted.
+    (pandas nullable dtypes and category columns are not judged: see the report of this stream in the notes)"""
+    import pandas as pd
+    import biogeme.database as dbm
+    import biogeme.biogeme as bio
+
+    def column(dt, fault, pos, n):
+        vals = [1.0 + i for i in range(n)]
+        if dt == 'object':
+            ser = pd.Series(vals, dtype=object)
+        else:
+            ser = pd.Series(np.array(vals, dtype=dt))
+        return ser
+
+    def plant(df, col, dt, fault, pos):
+        if fault == 'nan':
+            df.loc[pos, col] = np.nan
+        elif fault == 'string':
+            df[col] = df[col].astype(object)
+            df.loc[pos, col] = 'n/a'
+        elif fault == 'empty':
+            df.drop(df.index, inplace=True)
+
+    n = 4
+    for dt in DTYPES_NUM + ['object']:
+        for fault in ('none', 'nan', 'string', 'empty'):
+            if fault == 'nan' and dt not in DTYPES_NAN:
+                continue
+            if dt == 'object' and fault == 'none':
+                continue    # numbers stored as objects: whether that is 'non-numeric data' is not stated
+            for col in ('x', 'y'):       # x is read by the formula, y is not
+                for pos in ((0, n - 1) if fault in ('nan', 'string') else (0,)):
+                    for entry in ('db_new', 'bio_after_edit'):
+                        case = {'stream': 'dtypes', 'dtype': dt, 'fault': fault, 'col': col, 'pos': pos, 'entry': entry}
+                        res.count(case, nontrivial=True)
+                        res.tally(f'dtypes:{dt}:{fault}')
+                        df = pd.DataFrame({'x': [1.0 + i for i in range(n)], 'y': [2.0 + i for i in range(n)]})
+                        df[col] = column(dt, fault, pos, n)
+                        held = None
+                        with core.scratch(''):
+                            try:
+                                if entry == 'db_new':
+                                    plant(df, col, dt, fault, pos)
+                                    held = str(df[col].dtype)
+                                    dbm.Database('dtypes', df)
+                                else:
+                                    db = dbm.Database('dtypes', df)
+                                    plant(db.data, col, dt, fault, pos)
+                                    held = str(db.data[col].dtype)
+                                    bio.BIOGEME(db, life_formula_xy())
+                                got = 'ok'
+                            except Exception as e:  # noqa: BLE001
+                                got = core.exc_kind(e)
+                        if fault == 'nan' and held != dt:
+                            res.tally('dtypes:dtype changed by the edit (not judged)')
+                            continue
+                        exp = 'ok' if fault == 'none' else 'BiogemeError'
+                        if got != exp:
+                            res.violate(f'data audit: {fault} in a {dt} column ({col}, row {pos}) gives {got} ({entry})', case, got, exp, where=f'dtypes:{entry}')
+                        req = {'op': 'dataaudit', 'rows': 0 if fault == 'empty' else n,
+                               'cols': [{'name': c, 'numeric': not (c == col and (fault == 'string' or dt == 'object')), 'hasNaN': c == col and fault == 'nan'} for c in ('x', 'y')]}
+
+                        def cb(ans, got=got, case=case, entry=entry):
+                            faults = ans['new' if entry == 'db_new' else 'bio']
+                            if bool(faults) != (got != 'ok'):
+                                res.diverge(f'data audit by dtype: model {faults}, library {got}', case, faults, got, where=f'dtypes:{entry}')
+
+                        ctx.batch.add(req, cb)
+
+
 def life_formula_xy():
     from biogeme.expressions import Beta, Variable
 
@@ -2517,6 +2594,7 @@ def check(ctx) -> Result:
     nests_check(ctx, res, rng)
     nest_names_check(ctx, res, rng)
     cells_check(ctx, res)
+    dtype_check(ctx, res)
     getvalue_check(ctx, res, rng)
     lap('flags/data/nests/cells/getvalue')
     missing_check(ctx, res)
@@ -2596,6 +2674,9 @@ def replay(ctx, obj):
         judge_session(ctx, r, c, run_plantings([c], worker='session_worker')[0], stream=case['stream'])
     elif case.get('stream') == 'nestnames':
         judge_named_nests(ctx, r, {k: case[k] for k in ('stream', 'groups', 'scheme', 'names', 'first_spec', 'entry')})
+    elif case.get('stream') == 'dtypes':
+        dtype_check(ctx, r)
+        r.violations = [v for v in r.violations if all(v['case'].get(k) == case.get(k) for k in ('dtype', 'fault', 'col', 'pos', 'entry'))]
     elif case.get('stream') == 'cells':
         cells_check(ctx, r)
         r.violations = [v for v in r.violations if all(v['case'].get(k) == case.get(k) for k in ('rows', 'pos', 'fault', 'col', 'entry'))]
